@@ -73,7 +73,8 @@ func isInspector(o *types.Func) bool {
 		case "errors":
 			return o.Name() == "As" || o.Name() == "Is"
 		case "fmt":
-			return true
+			// Errorf/Sprintf wrap the value: their result carries it (handled as a derived value); printing is inspection
+			return !(o.Name() == "Errorf" || o.Name() == "Sprintf" || o.Name() == "Sprint")
 		}
 	}
 	if o.Name() == "Error" && RecvName(o) != "" {
@@ -101,7 +102,14 @@ func FollowErr(c ssa.CallInstruction) ErrFlow {
 	for _, e := range errs {
 		add(e)
 	}
-	sink := func(s string) { res.Sinks = append(res.Sinks, s) }
+	sinkInstrs := map[ssa.Instruction]bool{}
+	var cur ssa.Instruction
+	sink := func(s string) {
+		res.Sinks = append(res.Sinks, s)
+		if cur != nil {
+			sinkInstrs[cur] = true
+		}
+	}
 	for len(work) > 0 {
 		v := work[0]
 		work = work[1:]
@@ -110,6 +118,7 @@ func FollowErr(c ssa.CallInstruction) ErrFlow {
 			continue
 		}
 		for _, ref := range *refs {
+			cur = ref
 			switch in := ref.(type) {
 			case *ssa.Panic:
 				sink("panic")
@@ -168,6 +177,8 @@ func FollowErr(c ssa.CallInstruction) ErrFlow {
 				add(in.Value())
 			case *ssa.Extract:
 				add(in)
+			case *ssa.Slice:
+				add(in)
 			case *ssa.Phi:
 				add(in)
 			case *ssa.MakeInterface:
@@ -221,6 +232,10 @@ func FollowErr(c ssa.CallInstruction) ErrFlow {
 				}
 				seen[b] = true
 				for _, in := range b.Instrs {
+					if sinkInstrs[in] {
+						// the error was handed to a handler / stored / thrown on this path
+						return
+					}
 					if ret, ok := in.(*ssa.Return); ok {
 						carries := false
 						for _, rv := range ret.Results {
